@@ -3,7 +3,7 @@
    (full-width guard, signed/unsigned branch, `if (fmax == 0) fmax = 1`, range test, masked write)
    is written here; it is the shape tools/props/c02_regen.py matches before extracting. *)
 From Coq Require Import ZArith List Bool String.
-From Cffi Require Import C03.CExpr C03.Mem C03.Store C02.Gen C02.Model.
+From Cffi Require Import C03.CExpr C03.Mem C03.Store C02.IR C02.Gen C02.Model.
 Import ListNotations.
 Open Scope string_scope.
 Open Scope Z_scope.
@@ -41,6 +41,16 @@ Definition gen_read (T : ity) (w sh : Z) (data : list Z) : bres Z :=
       else result_of (run_prog rho read_unsigned_prog) "value"
   end.
 
+(* the regenerated way of obtaining `value` *)
+Definition conv_value (c : value_conv) (v : Z) : res Z :=
+  match c with
+  | VCAsLongLong => as_longlong v
+  | VCAndOverflow saturate =>
+      if (- 2 ^ 63 <=? v) && (v <? 2 ^ 63) then Ok v
+      else if saturate then Ok (if 0 <? v then 2 ^ 63 - 1 else - 2 ^ 63)
+      else Ok (-1)                      (* the overflow flag is ignored: value stays -1 *)
+  end.
+
 Definition gen_write (T : ity) (w sh v : Z) (data : list Z) : bres unit * list Z :=
   let rho := rho0 w sh data in
   match ceval rho write_fullwidth_guard with
@@ -48,7 +58,7 @@ Definition gen_write (T : ity) (w sh v : Z) (data : list Z) : bres unit * list Z
   | Some (_, g) =>
       if negb (g =? 0) then lift_res (convert_from_object_int T v data)
       else
-        match as_longlong v with
+        match conv_value write_value_conv v with
         | Err e => (BErr e, data)
         | UB => (BUB, data)
         | Ok value =>
